@@ -2,7 +2,8 @@
    harness runs every model and spec function.  Request = L (I fid :: args). *)
 From Coq Require Import String List NArith Bool Arith.
 From CMinx Require Import Base.Str Extract.Tree
-     Model.Lexer Model.Parser Model.Writer Model.DocTypes Model.Aggregator Model.Pipeline.
+     Model.Lexer Model.Parser Model.Writer Model.DocTypes Model.Aggregator Model.Pipeline
+     Spec.Projections.
 Import ListNotations.
 
 Definition e_token (t : token) : tree := L [e_nat (kind_id (fst t)); e_str (snd t)].
@@ -152,5 +153,30 @@ Definition dispatch_base (fid : nat) (a : list tree) : option tree :=
          Some (e_outcome (document_bytes (ps_flags st) (ps_trigger st) (table_fn (ps_fn st))
                             (table_fn (ps_mac st)) (table_fn (ps_mem st)) (ps_hdrs st)
                             (d_str (d_arg 1 a)) (d_str (d_arg 2 a)) (d_list d_n (d_arg 3 a))))
+  | 9 => (* entries of a byte string, projected and rendered one by one *)
+         let st := d_psettings (d_arg 0 a) in
+         let mode := d_nat (d_arg 1 a) in
+         Some (match utf8_decode (d_list d_n (d_arg 2 a)) with
+               | None => L [I 1%N]
+               | Some src =>
+                   match lex src with
+                   | LexErr _ => L [I 2%N]
+                   | LexOk ts =>
+                       match parse ts with
+                       | None => L [I 3%N]
+                       | Some f =>
+                           match aggregate (ps_flags st) (ps_trigger st) (table_fn (ps_fn st))
+                                           (table_fn (ps_mac st)) (table_fn (ps_mem st)) f with
+                           | Crash => L [I 4%N]
+                           | Ok ag =>
+                               L [I 0%N;
+                                  L (map (fun p => L [e_nat (entry_kind (fst p)); e_bool (snd p);
+                                                      e_str (entry_text (ps_hdrs st)
+                                                                        (project mode (fst p)))])
+                                         (combine (documented ag) (origins ag)))]
+                           end
+                       end
+                   end
+               end)
   | _ => None
   end.
